@@ -10,7 +10,9 @@ import datetime
 import os
 import pickle
 import random
+import select
 import shutil
+import signal
 import struct
 import sys
 import tempfile
@@ -131,6 +133,10 @@ class Child:
 
     def _serve(self, rfd: int, wfd: int, optable: str, seed: int, env: dict) -> None:
         os.environ.update(env)
+        if os.environ.get('VERIF_CHILD_DUMP'):  # debugging aid: dump all thread stacks if an operation hangs
+            import faulthandler  # pylint: disable=import-outside-toplevel
+
+            faulthandler.dump_traceback_later(int(os.environ['VERIF_CHILD_DUMP']), exit=False)
         seed_identity(seed)
 
         def die():
@@ -176,6 +182,15 @@ class Child:
         return self._reply()
 
     def _reply(self) -> Result:
+        # real-time watchdog: a child that does not answer is a harness problem, never a verdict
+        ready, _, _ = select.select([self._r], [], [], float(os.environ.get('VERIF_CHILD_TIMEOUT', 180)))
+        if not ready:
+            try:
+                os.kill(self.pid, signal.SIGKILL)
+            except OSError:
+                pass
+            self._reap()
+            return Result('died', None, 'child did not answer within the real-time limit (killed)', [])
         reply = _recv(self._r)
         if reply is None:
             self._reap()
